@@ -33,9 +33,18 @@ func c06Switching(w *World) {
 		s.TP.Kinds = append(s.TP.Kinds, k2)
 	}
 	EditObject(w, ResCompositeCtl, "", cfg.Name, "setup", func(o Object) { o["spec"] = cfg.Object()["spec"] })
-	which := t.Pick(2, "switched-kind")
+	which := t.Pick(3, "switched-kind")
 	to := []string{"InPlace", "Recreate"}[t.Pick(2, "switched-to")]
-	w.Cfg["switch"] = fmt.Sprintf("%s:%s->%s", cfg.Children[which].Res.Kind, cfg.Children[which].Method, to)
+	noSwitch := which == 2
+	if noSwitch {
+		// a third of the family: both kinds keep rolling to the end (an old revision
+		// then loses its last child of one kind while it still records the other's)
+		which = 0
+		to = cfg.Children[0].Method
+		w.Cfg["switch"] = "none (two rolling kinds)"
+	} else {
+		w.Cfg["switch"] = fmt.Sprintf("%s:%s->%s", cfg.Children[which].Res.Kind, cfg.Children[which].Method, to)
+	}
 	p := s.Parents[0]
 	fair := &Policy{Name: "fair+status", EnvWhenIdle: true}
 	w.EnvOps = func(w *World) []EnvOp { return s.StatusActor(true) }
@@ -56,6 +65,9 @@ func c06Switching(w *World) {
 		}},
 		{Name: "switch", Quiet: true, MaxSteps: 6000, Policy: fair, OnBudget: budget,
 			Do: func(w *World) {
+				if noSwitch {
+					return
+				}
 				cfg.Children[which].Method = to
 				cfg.Children[which].StatusChecks = nil
 				cfg.Ver++
